@@ -56,6 +56,35 @@ pub fn record_steps(rng: &mut StdRng, rate: f64, out: &mut Vec<Value>) {
     }
 }
 
+/// Second-order cone points a few ulps inside the boundary, with an axis-aligned tail (so that the norm of the tail is
+/// exact) and directions for which the exact distance to the boundary is itself a floating-point number:
+/// x = (t(1 + k eps), sg t, 0, ..), y = (-1, 0, ..) or (0, sg, 0, ..) -> alpha = x0 - t;  y = (-1, sg, 0, ..) -> alpha = (x0 - t)/2.
+pub fn near_boundary_events(out: &mut Vec<Value>) {
+    for dim in [2usize, 3, 5, 6] {
+        for t in [1.0f64, 3.0, 0.1, 1e5, 1e-3] {
+            for k in [1u64, 2, 3, 5, 17, 1000, 1 << 20, 1 << 40] {
+                for sg in [1.0f64, -1.0] {
+                    let x0 = f64::from_bits(t.to_bits() + k);          // t moved up by k ulps
+                    let gap = x0 - t;                                  // exact (Sterbenz)
+                    for (dir, exact) in [(0usize, gap), (1, gap), (2, gap / 2.0)] {
+                        let mut x = vec![0.0; dim]; x[0] = x0; x[1] = sg * t;
+                        let mut y = vec![0.0; dim];
+                        match dir { 0 => y[0] = -1.0, 1 => y[1] = sg, _ => { y[0] = -1.0; y[1] = sg; } }
+                        let mut z = vec![0.0; dim]; z[0] = 1.0;
+                        let dz = vec![0.0; dim];
+                        let cone = ConeSpec::Soc(dim);
+                        let res = catch_unwind(AssertUnwindSafe(|| verif::cones_step_length(&[cone.to_clarabel()], &dz, &y, &z, &x, &settings(), 1.0, false)));
+                        out.push(match res {
+                            Ok((az, asl)) => json!({"ev": "NearBoundary", "dim": dim, "t": t, "k": k, "dir": dir, "alpha_s": fj(asl), "alpha_z": fj(az), "exact": fj(exact.min(1.0))}),
+                            Err(e) => json!({"ev": "Panic", "kind": "near_boundary", "msg": crate::rec_ipm::panic_msg(e)}),
+                        });
+                    }
+                }
+            }
+        }
+    }
+}
+
 fn split_probes(evs: &[verif::Event], amax: f64) -> (Vec<(f64, bool)>, Vec<(f64, bool)>) {
     let pr: Vec<(f64, bool)> = evs.iter().filter(|e| e.name == "Probe").map(|e| (e.f[0], e.i[0] != 0)).collect();
     let mut cut = pr.len();
@@ -73,7 +102,7 @@ pub fn backtrack_event(rng: &mut StdRng) -> Value {
     let mut st = settings();
     st.linesearch_backtrack_step = [0.5, 0.8, 0.95][rng.gen_range(0..3)];
     st.min_terminate_step_length = [1e-4, 1e-2, 1e-6][rng.gen_range(0..3)];
-    let amax = [1.0, 0.99, 0.5, 0.3][rng.gen_range(0..4)];
+    let amax = [1.0, 0.99, 0.5, 0.3, 5e-5, 2e-6][rng.gen_range(0..6)];   // (the last two lie below min_terminate_step_length: the requested maximum is still tried)
     verif::start();
     let res = catch_unwind(AssertUnwindSafe(|| verif::cones_step_length(&[cone.to_clarabel()], &dz, &ds, &z, &s, &st, amax, false)));
     let evs = verif::take();
@@ -194,6 +223,7 @@ pub fn record(seed: u64, thorough: bool) -> (Vec<Value>, Value) {
     let mut rng = StdRng::seed_from_u64(seed);
     let mut out = vec![];
     record_steps(&mut rng, if thorough { 1.0 } else { 0.15 }, &mut out);
+    near_boundary_events(&mut out);
     let nsteps = out.len();
     let (nb, nc, ns) = if thorough { (20000, 20000, 10000) } else { (1500, 1500, 1000) };
     for _ in 0..nb { out.push(backtrack_event(&mut rng)); }
